@@ -58,6 +58,14 @@ def kinds(rootname):
         ("long non-ASCII escaping component, shifted 2", [b"../ab" + LONG_NAME], ("beside", b"ab" + LONG_NAME)),
         ("long non-ASCII escaping component, shifted 3", [b"../abc" + LONG_NAME], ("beside", b"abc" + LONG_NAME)),
         ("long non-ASCII plain component (stays inside)", [LONG_NAME], None),
+        # added after seeded change C13-8 (names trimmed AFTER the screening): a parent-directory component padded with white
+        # space is an ordinary (odd) name here; the decoy waits where the trimmed path would point
+        ("'.. ' (trailing space) then decoy", [b".. ", b"decoy"], "beside"),
+        ("'..\\n' (trailing line feed) then decoy", [b"..\n", b"decoy"], "beside"),
+        ("'..\\t' then '.. ' then decoy", [b"..\t", b".. ", b"decoy"], "above"),
+        ("' ..' (leading space) then decoy", [b" ..", b"decoy"], "beside"),
+        ("'..\\u00a0' (no-break space) then decoy", [b"..\xc2\xa0", b"decoy"], "beside"),
+        ("decoy name padded: 'decoy ' beside", [b"..", b"decoy "], "beside"),
         # added after seeded change C13-5 (a second, unscreened spelling of `path`): the whole path as ONE byte string
         ("path as a joined byte string: ../decoy", b"../decoy", "beside"),
         ("path as a joined byte string: d1/../../decoy", b"d1/../../decoy", "beside-d1"),
@@ -76,7 +84,10 @@ def kinds(rootname):
     ]
 
 
-def hostile_case(r, kind, pos, mode, rootname=b"root"):
+def hostile_case(r, kind, pos, mode, rootname=b"root", pieces_without_hostile=False):
+    """pieces_without_hostile: the piece list covers only the ORDINARY files (the hostile entry still carries the decoy's
+    length and md5sum): an implementation that skips the escaping entry when hashing but still checks its existence, length
+    and checksum would succeed on the strength of the outside file (seeded change C13-9)"""
     tag, comps, where = kind
     p = r.choice([1, 4, 7, 64, 16384])
     n = r.randint(1, 4)
@@ -87,6 +98,10 @@ def hostile_case(r, kind, pos, mode, rootname=b"root"):
     files = [([b"f%d" % i], datas[i]) for i in range(n)]
     w = vfy.World(rootname, p, files, True, r.random() < 0.5)
     w.info[b"files"][pos][b"path"] = comps if isinstance(comps, bytes) else list(comps)   # pieces and md5sum stay the decoy's
+    if pieces_without_hostile:
+        blob = b"".join(d for i, d in enumerate(datas) if i != pos)
+        w.info[b"pieces"] = vfy.sha1s(blob, p)
+        tag += " (pieces cover the ordinary files only)"
     vfy.tree_del(w.content, [b"f%d" % pos])
     tree, arg, inp = vfy.place(w, mode, r, True)
     # where the content root is, relative to the sandbox
@@ -174,6 +189,10 @@ def generate(ctx):
                 c = hostile_case(r, kind, r.choice([0, 1, 2, -1]), mode)
                 if c is not None:
                     cases.append(c)
+        for kind in kinds(b"root")[:8]:
+            c = hostile_case(r, kind, r.choice([0, 1, -1]), r.choice(["content", "base", "default", "stdin"]), pieces_without_hostile=True)
+            if c is not None:
+                cases.append(c)
         cases += hostile_names(r)
         for _ in range(12):                                          # ordinary torrents in between
             w = vfy.random_world(r, multi=True)
